@@ -35,6 +35,12 @@ Property theorems only (helpers: `Proofs/Lemmas/Dynamics.lean`; model: `Pose/Mod
   state and input (`Fn.affineIn`, time-dependent coefficients allowed) the affine model is exact **everywhere** and the same for
   every reference state / input (`nls_affine_exact`, `nls_affine_exact_obs`, `nls_affine_refpoint_irrelevant`,
   `nls_affine_jacobian_constant`).
+* §3c overridden properties at full strength: whichever properties are overridden and whatever the buffers hold, the forward
+  follows the time-indexed law with the *resolved* stacks (`obj_forward_periodic`, `obj_forward_plain`,
+  `overridden_constants_used_ltv` — the shape of the seeded change C15-5).
+* §4c an LTV system written as an NLS (`Fn.affRow`: rows `Σ a_j(t) x_j + Σ b_j(t) u_j + c(t)`): the linearisation returns the
+  coefficients — `A[i][j] = a_j(t*)`, `B[i][j] = b_j(t*)`, `c1[i] = c(t*)`, same for `C`, `D` — at every reference state / input
+  (`nls_ltv_jacobians`, `nls_ltv_jacobians_obs`, `nls_ltv_exact`, `nls_ltv_constant`; driver op `c15.affrow`, stream det/affrow).
 * §7 `nls_read_unchanged_by_calls`; §8 error paths: the code is **not** atomic (`partial_update_defect_witness`,
   `nls_history_last_attempt_raised`); `nls_failed_call_atomic`, `nls_history_without_failed_call` state what atomic error
   paths would give (a variant, not the code). The historical alias variants (D32, D38) are in `Lemmas/Dynamics §10`.
@@ -503,6 +509,72 @@ theorem ltv_plain_raises {T n m p : ℕ}
     simp only [sliceIdx, pyIndex, Bool.false_eq_true, if_false]
     rw [if_neg (by omega), if_neg (by omega)]
   simp [linForward, mkSys, this]
+
+/-! ### 3c. Overridden properties with time-indexed values (any subset, `LTI` or `LTV` subclass)
+
+`overridden_constants_used` (§3a) is the one-slice case. At full strength: whatever the private buffers hold and whichever of the
+six properties are overridden, if the *resolved* properties are the stacks `A_k, B_k, C_k, D_k, c1_k, c2_k` (k < T), a forward at
+clock `t` follows the time-indexed law with the **resolved** values — periodic (`t mod T`) or plain (`0 ≤ t < T`) indexing. -/
+
+/-- **periodic indexing, any overrides**: `x' = A_{t mod T} x + B_{t mod T} u + c1_{t mod T}`, `y = C_{…} x + D_{…} u + c2_{…}` with the
+values the *properties* return. -/
+theorem obj_forward_periodic {T n m p : ℕ} (hT : 0 < T) (o : LinObj ℝ)
+    (A : Fin T → Matrix (Fin n) (Fin n) ℝ) (B : Fin T → Matrix (Fin n) (Fin m) ℝ)
+    (C : Fin T → Matrix (Fin p) (Fin n) ℝ) (D : Fin T → Matrix (Fin p) (Fin m) ℝ)
+    (c1 : Option (Fin T → Fin n → ℝ)) (c2 : Option (Fin T → Fin p → ℝ))
+    (ho : o.props = mkSys .ltv true A B C D c1 c2) (t : Int) (x : Fin n → ℝ) (u : Fin m → ℝ) :
+    let i : Fin T := ⟨(t % (T : Int)).toNat, by
+      have h1 := Int.emod_nonneg t (show (T : Int) ≠ 0 by omega)
+      have h2 := Int.emod_lt_of_pos t (show (0 : Int) < T by omega)
+      omega⟩
+    objForward o t (List.ofFn x) (List.ofFn u) =
+      some (List.ofFn ((A i).mulVec x + (B i).mulVec u + optC (c1.map (· i))),
+            List.ofFn ((C i).mulVec x + (D i).mulVec u + optC (c2.map (· i)))) := by
+  intro i
+  unfold objForward
+  rw [ho]
+  exact ltv_eq_periodic hT A B C D c1 c2 t x u
+
+/-- **plain indexing, any overrides**: for `0 ≤ t < T` the slice `t` of the resolved properties is used. -/
+theorem obj_forward_plain {T n m p : ℕ} (o : LinObj ℝ)
+    (A : Fin T → Matrix (Fin n) (Fin n) ℝ) (B : Fin T → Matrix (Fin n) (Fin m) ℝ)
+    (C : Fin T → Matrix (Fin p) (Fin n) ℝ) (D : Fin T → Matrix (Fin p) (Fin m) ℝ)
+    (c1 : Option (Fin T → Fin n → ℝ)) (c2 : Option (Fin T → Fin p → ℝ))
+    (ho : o.props = mkSys .ltv false A B C D c1 c2) (i : Fin T) (x : Fin n → ℝ) (u : Fin m → ℝ) :
+    objForward o (i.val : Int) (List.ofFn x) (List.ofFn u) =
+      some (List.ofFn ((A i).mulVec x + (B i).mulVec u + optC (c1.map (· i))),
+            List.ofFn ((C i).mulVec x + (D i).mulVec u + optC (c2.map (· i)))) := by
+  unfold objForward
+  rw [ho]
+  exact ltv_eq_plain A B C D c1 c2 i x u
+
+/-- **the shape of the seeded change C15-5 at full strength**: stacked buffers `A, B, C, D` handed to the constructor, `c1 = c2 =
+None` handed to the constructor, the `c1`, `c2` *properties* overridden by time-indexed values: every step adds the overriding
+`c1_{t mod T}`, `c2_{t mod T}`. -/
+theorem overridden_constants_used_ltv {T n m p : ℕ} (hT : 0 < T)
+    (A : Fin T → Matrix (Fin n) (Fin n) ℝ) (B : Fin T → Matrix (Fin n) (Fin m) ℝ)
+    (C : Fin T → Matrix (Fin p) (Fin n) ℝ) (D : Fin T → Matrix (Fin p) (Fin m) ℝ)
+    (c1 : Fin T → Fin n → ℝ) (c2 : Fin T → Fin p → ℝ) (t : Int) (x : Fin n → ℝ) (u : Fin m → ℝ) :
+    let i : Fin T := ⟨(t % (T : Int)).toNat, by
+      have h1 := Int.emod_nonneg t (show (T : Int) ≠ 0 by omega)
+      have h2 := Int.emod_lt_of_pos t (show (0 : Int) < T by omega)
+      omega⟩
+    objForward { kind := .ltv, periodic := true
+                 bufA := List.ofFn fun k => rowsOf (A k), bufB := List.ofFn fun k => rowsOf (B k)
+                 bufC := List.ofFn fun k => rowsOf (C k), bufD := List.ofFn fun k => rowsOf (D k)
+                 bufc1 := none, bufc2 := none
+                 ovc1 := some (some (List.ofFn fun k => List.ofFn (c1 k))), ovc2 := some (some (List.ofFn fun k => List.ofFn (c2 k))) }
+      t (List.ofFn x) (List.ofFn u) =
+      some (List.ofFn ((A i).mulVec x + (B i).mulVec u + c1 i), List.ofFn ((C i).mulVec x + (D i).mulVec u + c2 i)) := by
+  intro i
+  have h := obj_forward_periodic hT
+    { kind := .ltv, periodic := true
+      bufA := List.ofFn fun k => rowsOf (A k), bufB := List.ofFn fun k => rowsOf (B k)
+      bufC := List.ofFn fun k => rowsOf (C k), bufD := List.ofFn fun k => rowsOf (D k)
+      bufc1 := none, bufc2 := none
+      ovc1 := some (some (List.ofFn fun k => List.ofFn (c1 k))), ovc2 := some (some (List.ofFn fun k => List.ofFn (c2 k))) }
+    A B C D (some c1) (some c2) rfl t x u
+  simpa [optC] using h
 
 /-- in a history of a linear system a successful call advances the clock by one and a call whose
 forward raises leaves it; the clocks of `runLin` are those of the clock machine. -/
@@ -973,6 +1045,87 @@ example :
     [5] [-3] 2 0 (by simp) (by decide) [100] [7] rfl rfl
   rw [h]
   simp [Fn.eval, mkEnv]
+
+/-! ### 4c. A linear time-variant system written as an `NLS`: the linearisation returns its coefficient matrices
+
+`Fn.affRow nx a b c` is the tree `Σ_j a_j(t) x_j + Σ_j b_j(t) u_j + c(t)` with coefficient trees that mention the time only
+(`Fn.freeOf`). For such a component of `f` (same for `g` with `C`, `D`): the Jacobian entries ARE the coefficients at the
+reference time — `A[i][j] = a_j(t*)`, `B[i][j] = b_j(t*)`, whatever `x*`, `u*` — and (`nls_affine_exact` + `affRow_affine`) the
+affine model equals the row at every point; taking `x' = u' = 0` there, `c1[i] = c(t*)`. So `NLS` and `LTV` agree on an LTV
+system. -/
+
+/-- `A[i][j] = a_j(t*)` and `B[i][j] = b_j(t*)` for a component `f_i = Σ a_j(t) x_j + Σ b_j(t) u_j + c(t)`. -/
+theorem nls_ltv_jacobians (fs gs : List Fn) (x u : DVec ℝ) (t : ℝ) (i : ℕ) (hi : i < fs.length)
+    (a b : List Fn) (c : Fn) (hf : fs[i] = Fn.affRow x.length a b c)
+    (ha : ∀ e ∈ a, e.freeOf (x.length + u.length) = true) (hb : ∀ e ∈ b, e.freeOf (x.length + u.length) = true)
+    (hc : c.freeOf (x.length + u.length) = true) (hla : a.length ≤ x.length) :
+    (∀ j, j < x.length →
+      ((linearize fs gs x u t).A.getD i []).getD j 0 = (a.getD j Fn.zero).eval (mkEnv x u t)) ∧
+    (∀ j, j < u.length →
+      ((linearize fs gs x u t).B.getD i []).getD j 0 = (b.getD j Fn.zero).eval (mkEnv x u t)) := by
+  constructor
+  · intro j hj
+    simp only [linearize, linAt, jac_entry fs 0 x.length _ i j hi hj, Nat.zero_add, hf, Fn.affRow, Fn.D, Fn.eval]
+    rw [D_lincomb _ _ j (by omega) a ha 0, D_lincomb _ _ j (by omega) b hb x.length, D_free _ _ j (by omega) c hc]
+    simp [show ¬ x.length ≤ j by omega]
+  · intro j hj
+    simp only [linearize, linAt, jac_entry fs x.length u.length _ i j hi hj, hf, Fn.affRow, Fn.D, Fn.eval]
+    rw [D_lincomb _ _ (x.length + j) (by omega) a ha 0, D_lincomb _ _ (x.length + j) (by omega) b hb x.length,
+      D_free _ _ (x.length + j) (by omega) c hc]
+    have e1 : a[x.length + j]? = none := List.getElem?_eq_none (by omega)
+    simp [e1, Fn.zero, Fn.eval]
+
+/-- the same for a component of the observation: `C[i][j] = a_j(t*)`, `D[i][j] = b_j(t*)` for `g_i = Σ a_j(t) x_j + Σ b_j(t) u_j + c(t)`. -/
+theorem nls_ltv_jacobians_obs (fs gs : List Fn) (x u : DVec ℝ) (t : ℝ) (i : ℕ) (hi : i < gs.length)
+    (a b : List Fn) (c : Fn) (hg : gs[i] = Fn.affRow x.length a b c)
+    (ha : ∀ e ∈ a, e.freeOf (x.length + u.length) = true) (hb : ∀ e ∈ b, e.freeOf (x.length + u.length) = true)
+    (hc : c.freeOf (x.length + u.length) = true) (hla : a.length ≤ x.length) :
+    (∀ j, j < x.length →
+      ((linearize fs gs x u t).C.getD i []).getD j 0 = (a.getD j Fn.zero).eval (mkEnv x u t)) ∧
+    (∀ j, j < u.length →
+      ((linearize fs gs x u t).D.getD i []).getD j 0 = (b.getD j Fn.zero).eval (mkEnv x u t)) :=
+  nls_ltv_jacobians gs fs x u t i hi a b c hg ha hb hc hla
+
+/-- the affine model of such a component is the row itself at **every** `(x', u')`: `(A x' + B u' + c1)_i = Σ a_j(t*) x'_j +
+Σ b_j(t*) u'_j + c(t*)` (the right-hand side is the evaluation of the tree `affRow`). -/
+theorem nls_ltv_exact (fs gs : List Fn) (x u : DVec ℝ) (t : ℝ) (i : ℕ) (hi : i < fs.length)
+    (a b : List Fn) (c : Fn) (hf : fs[i] = Fn.affRow x.length a b c)
+    (ha : ∀ e ∈ a, e.freeOf (x.length + u.length) = true) (hb : ∀ e ∈ b, e.freeOf (x.length + u.length) = true)
+    (hc : c.freeOf (x.length + u.length) = true)
+    (x' u' : DVec ℝ) (hx : x'.length = x.length) (hu : u'.length = u.length) :
+    ((linearize fs gs x u t).predict x' u').1.getD i 0 = (Fn.affRow x.length a b c).eval (mkEnv x' u' t) := by
+  rw [← hf]
+  exact nls_affine_exact fs gs x u t i hi (by rw [hf]; exact affRow_affine _ _ a b c ha hb hc) x' u' hx hu
+
+/-- the constant term of the affine model — its value at the origin, `A·0 + B·0 + c1` — is the row's constant term at the
+reference time: `c1[i] = c(t*)`, whatever `x*`, `u*`. -/
+theorem nls_ltv_constant (fs gs : List Fn) (x u : DVec ℝ) (t : ℝ) (i : ℕ) (hi : i < fs.length)
+    (a b : List Fn) (c : Fn) (hf : fs[i] = Fn.affRow x.length a b c)
+    (ha : ∀ e ∈ a, e.freeOf (x.length + u.length) = true) (hb : ∀ e ∈ b, e.freeOf (x.length + u.length) = true)
+    (hc : c.freeOf (x.length + u.length) = true) (hla : a.length ≤ x.length) (hlb : b.length ≤ u.length) :
+    ((linearize fs gs x u t).predict (List.replicate x.length 0) (List.replicate u.length 0)).1.getD i 0
+      = c.eval (mkEnv x u t) := by
+  rw [nls_ltv_exact fs gs x u t i hi a b c hf ha hb hc _ _ (by simp) (by simp)]
+  have hz := mkEnv_origin x.length u.length t
+  simp only [Fn.affRow, Fn.eval]
+  rw [eval_lincomb_zero _ a 0 (fun j _ hj => hz j (by omega)),
+    eval_lincomb_zero _ b x.length (fun j _ hj => hz j (by omega)),
+    eval_free _ _ _ (mkEnv_agree x u t _ _ (by simp) (by simp)) c hc]
+  ring
+
+/-- non-vacuity: the row `t·x₀ + cos t·x₁ + 3·u₀ + t²` (nx = 2, nu = 1, time = variable 3) linearised at
+`(x*, u*, t*) = ((5, −1), (2), 4)` has `A = [4, cos 4]`, `B = [3]`. -/
+example :
+    let f : Fn := Fn.affRow 2 [.var 3, .cos (.var 3)] [.const false 3 1] (.pow (.var 3) 2)
+    let L := linearize (α := ℝ) [f] [] [5, -1] [2] 4
+    (L.A.getD 0 []).getD 0 0 = 4 ∧ (L.A.getD 0 []).getD 1 0 = Real.cos 4 ∧ (L.B.getD 0 []).getD 0 0 = 3 := by
+  intro f L
+  have h := nls_ltv_jacobians [f] [] [5, -1] [2] 4 0 (by simp) [.var 3, .cos (.var 3)] [.const false 3 1] (.pow (.var 3) 2) rfl
+    (by decide) (by decide) (by decide) (by simp)
+  refine ⟨?_, ?_, ?_⟩
+  · exact (h.1 0 (by simp)).trans (by simp [Fn.eval, mkEnv])
+  · exact (h.1 1 (by simp)).trans (by simp [Fn.eval, mkEnv])
+  · exact (h.2 0 (by simp)).trans (by simp [Fn.eval, mkEnv])
 
 /-! ## 7. Statelessness (object re-use) -/
 
